@@ -19,7 +19,7 @@ def can_glue(a, b):
 
 def comment_text(r):
     return "#" + r.choice(["", " c", " if then else end", " 'quote", " \"dq", " // pat", " do <<", "#", " é", " x = 1;", "\t",
-                           " a; nosuch_name(", "; error 'from comment';", " ) ] end", " \\", " \r inside"])
+                           " a; nosuch_name(", "; error 'from comment';", " ) ] end", " \\", " tab\tinside"])
 
 
 def separator(r, mode, a, b):
